@@ -61,7 +61,7 @@ var (
 	binOps       = []string{"==", "!=", "<", "<=", ">", ">=", "+", "-", "*", "/", "%", "and", "or", "=~", "!~"}
 	Strings      = []string{
 		`"abc"`, `'abc'`, `"a;b"`, `'x;//y'`, `"// not a comment"`, `"it's"`, `'say "hi"'`, `"esc\"q;"`, `'t\tn\n'`,
-		`""`, `"héllo wörld"`, `"日本;語"`, `'semi;colon;'`, `"back\\slash"`,
+		`""`, `"héllo wörld"`, `"日本;語"`, `'semi;colon;'`, `"back\\slash"`, "\"bad\xffutf8;\"", "'nul\x00;byte'",
 	}
 	Numbers = []string{"0", "1", "5", "42", "3.14", "1e3", "0x1F", "007", "10", "100", ".5", "2.50"}
 )
@@ -435,9 +435,11 @@ type Layout struct {
 	// NewlinePct / CommentPct are percentages for a non-tight gap.
 	NewlinePct, CommentPct int
 	CRLF                   bool
+	// Exotic enables unusual white-space characters in gaps.
+	Exotic bool
 }
 
-var commentBodies = []string{"", " c", " a;b", " let x = 1;", "; ;", " \"quote", " 'q;", " `tick;", " // nested", " héllo;", " T | count;"}
+var commentBodies = []string{"", " c", " a;b", " \xff\xfe;", " \x00;", " let x = 1;", "; ;", " \"quote", " 'q;", " `tick;", " // nested", " héllo;", " T | count;"}
 
 // NL returns the line terminator.
 func (l *Layout) NL() string {
@@ -491,6 +493,11 @@ func (l *Layout) Gap(tightGap, must bool) string {
 		case 2:
 			if !must {
 				return ""
+			}
+		case 3:
+			if l.Exotic {
+				// other white space the lexer skips: form feed, vertical tab, lone CR, NBSP, NEL, line separator
+				return []string{"\f", "\v", "\r", "\u00a0", "\u0085", "\u2028", " \r ", "\t\f"}[l.R.Intn(8)]
 			}
 		}
 		return " "
